@@ -9,7 +9,7 @@ import (
 func init() {
 	propertyRules["C13"] = []ruleFn{ruleGSilent}
 	propertyExplain["C13"] = "All-paths guard rule G-SILENT: for every call of Config.Broadcast, Block.Sign and PreBlock.SetData in package dbft, on every path snapshot from every API entry (Start, Reset, OnReceive, OnTimeout, OnTransaction, OnNewTransaction) the fact not-watch-only (MyIndex >= 0 and !Config.WatchOnly()) is established before the call; residual requirements are pushed to all callers (backward demand over the resolved call graph). Decides silence of watch-only nodes; does not decide that other validators progress."
-	propertyRules["C14"] = []ruleFn{ruleNoWallclock, ruleInstantProv}
+	propertyRules["C14"] = []ruleFn{ruleNoWallclock, ruleInstantProv, ruleTimestamp}
 	propertyExplain["C14"] = "Ownership rule O-NO-WALLCLOCK: no function of package dbft references a wall-clock reading function of package time (resolved by types.Func identity, calls and method values alike). Provenance rule P-INSTANT: every time.Time value stored in Context/DBFT and every UnixNano() feeding a timestamp originates in Config.Timer.Now(). Decides that time enters only through the injected timer; the equality of two shifted runs is the behavioural consequence and is not re-established dynamically."
 }
 
@@ -169,6 +169,14 @@ func ruleInstantProv(c *RC) *RuleResult {
 					r.fail(fn.Name+"/time.Time."+sel.Sel.Name, c.Prog.Pos(call), "operand of "+sel.Sel.Name+" originates in "+src+", not in Config.Timer.Now() or a stored injected instant")
 				}
 			}
+			if okAll && sel.Sel.Name == "UnixNano" {
+				// UnixNano() is for absolute timestamps only: durations must be formed with Sub (which saturates and is
+				// well defined for the zero Time), never as a difference of UnixNano readings or a Duration conversion
+				if why := unixNanoMisuse(info, fn, call); why != "" {
+					okAll = false
+					r.fail(fn.Name+"/unixnano-duration", c.Prog.Pos(call), why)
+				}
+			}
 			if okAll {
 				if sel.Sel.Name == "UnixNano" {
 					nnow++
@@ -263,4 +271,64 @@ func instantSource(info *types.Info, fn *FuncInfo, e ast.Expr, depth int) string
 		return res
 	}
 	return "unknown"
+}
+
+// unixNanoMisuse: the UnixNano() call is used to build a duration.
+func unixNanoMisuse(info *types.Info, fn *FuncInfo, target *ast.CallExpr) string {
+	res := ""
+	var stack []ast.Node
+	ast.Inspect(fn.Decl.Body, func(n ast.Node) bool {
+		if n == nil {
+			stack = stack[:len(stack)-1]
+			return true
+		}
+		if n == ast.Node(target) {
+			for i := len(stack) - 1; i >= 0; i-- {
+				switch x := stack[i].(type) {
+				case *ast.CallExpr:
+					if tv, ok := info.Types[x.Fun]; ok && tv.IsType() {
+						if nt, ok := types.Unalias(tv.Type).(*types.Named); ok && nt.Obj().Pkg() != nil && nt.Obj().Pkg().Path() == "time" && nt.Obj().Name() == "Duration" {
+							res = "UnixNano() feeds a time.Duration conversion: elapsed time must be computed with Time.Sub on injected instants"
+						}
+					} else {
+						return false // argument of an ordinary call (constructor): fine
+					}
+				case *ast.BinaryExpr:
+					if x.Op.String() == "-" {
+						other := x.X
+						if containsNode(x.X, target) {
+							other = x.Y
+						}
+						found := false
+						ast.Inspect(other, func(m ast.Node) bool {
+							if s, ok := m.(*ast.SelectorExpr); ok && s.Sel.Name == "UnixNano" {
+								found = true
+							}
+							return true
+						})
+						if found {
+							res = "difference of two UnixNano() readings: use Time.Sub (UnixNano of the zero Time is not meaningful)"
+						}
+					}
+				case ast.Stmt:
+					return false
+				}
+			}
+			return false
+		}
+		stack = append(stack, n)
+		return true
+	})
+	return res
+}
+
+func containsNode(root ast.Node, target ast.Node) bool {
+	found := false
+	ast.Inspect(root, func(n ast.Node) bool {
+		if n == target {
+			found = true
+		}
+		return !found
+	})
+	return found
 }
